@@ -463,6 +463,66 @@ CHECKS["C12"]["assumptions"].append(
     "the empty string - the one way a rust-peg recogniser fails to terminate; recursion depth is bounded by the text length "
     "since every recursive rule consumes a character first (checked: the encoder rejects left recursion)")
 
+# ---------------------------------------------------------------------------------------------
+# C19 (reduced): symbolic execution of the certification service's step functions (rustc MIR)
+C19_MODELS = [
+    "MIR symbolic execution (smt/mirsym.py, smt/c19.py); callees are replaced by contract models:",
+    "CertInterface::check_client_id (inside the step functions) -> a free boolean `cid_ok`, arguments recorded; the function "
+    "itself is the subject of c19_wrapper / c19_client_state",
+    "CallTrait::get_request -> Some(the symbolic request) (a server-side call always carries its request)",
+    "serde_json::to_value, new_mytype -> Ok or Err (free); Result::map_err / Try::branch / FromResidual::from_residual -> the `?` contract",
+    "serde_json::from_value::<Args> -> Ok(parsed) or Err (free `parse`); <Args as PartialEq>::eq(canonical, parsed) -> free `args_equal`",
+    "<&Cow<str> as PartialEq<&str>>::eq, <String as PartialEq<&str>>::ne -> equality of string values",
+    "Call_*::reply / reply_client_id_error / reply_certification_error / set_continues -> recorded events; reply results Ok or Err (free)",
+    "HashMap<String, TestContext>::get_mut(key) -> Some(&mut the entry whose key equals `key`) else None, one successor per case",
+    "ClientIds::check_lifetime_timeout -> no effect (no client expires during the step: time is not advanced)",
+    "Arc::deref, RwLock::write, Result::unwrap on the guard, DerefMut -> the guarded value (no poisoning)",
+    "HashMap / HashSet / Vec / format! used to build canonical values -> opaque values; Range<i32> iteration -> concrete",
+]
+_C19_STEPS = ["test01", "test02", "test03", "test04", "test05", "test06", "test07", "test08", "test09", "test10", "test11", "end"]
+
+
+def c19_h(name, functions, symbolic, bounds):
+    return H(name, engine="smt", script="c19.py", timeout=(900, 1800), functions=functions, symbolic=symbolic,
+             bounds=bounds, stubs=C19_MODELS)
+
+
+CHECKS["C19"] = {
+    "design_ref": "3/C19",
+    "rule": ("SMT (z3 5.1) on a path-by-path symbolic execution of rustc MIR (nightly -Zunpretty=mir, dumped from the per-run "
+             "copy of /repo; executor smt/mirsym.py): every returning path of the function under check yields a path condition; "
+             "for each oracle clause the query `path condition and not clause` must be unsat. evaluations = solver queries "
+             "(branch feasibility + oracle). A model is a request shape / table state, replayed against the real "
+             "varlink-certification server process (built from the same copy) before it is reported."),
+    "no_common_assumptions": True,
+    "harnesses": [
+        c19_h("c19_client_state", ["varlink-certification: ClientIds::check_client_id (rustc MIR)"],
+              "a table of two clients with symbolic ids (distinct) and symbolic states; client id, required state and next state of the call",
+              "tables of exactly 2 clients (get_mut is position-independent: one hit, one miss, both misses are all covered)"),
+        c19_h("c19_wrapper", ["varlink-certification: CertInterface::check_client_id (rustc MIR)"],
+              "the three string arguments", "single path"),
+    ] + [
+        c19_h("c19_step_" + st, ["varlink-certification: <CertInterface as VarlinkInterface>::%s (rustc MIR, incl. the expanded "
+                                 "check_call_* macro)" % st],
+              "request flags more / oneway / upgrade each absent, false or true; method; parameters present or not; whether they "
+              "deserialize; whether they equal the canonical value; whether the client-id check passes; every fallible "
+              "serialization / reply call Ok or Err",
+              "all paths of the function (110-175); loops are the concrete `for i in 1..11` / `0..10`")
+        for st in _C19_STEPS
+    ],
+    "assumptions": [
+        "reduced claim: per step function - the success reply (for the oneway step: silent Ok) is produced only if the client-id "
+        "check passed, the call mode is the step's, the method is the step's, parameters are present, deserialize and equal the "
+        "canonical value; conversely such a request gets the success reply; every step checks its own place (TestNN -> TestNN+1, "
+        "Test11 -> End) first and once; the client table admits a step iff the client is known and in that state, and advances "
+        "only that client",
+        "outside: Start (its own inline check), the value comparison itself (serde_json::from_value + derived PartialEq on the "
+        "generated types: modelled as free booleans), the generated dispatch code that deserializes parameters before the step "
+        "function runs, client-id expiry (time), concurrency of clients (RwLock), the wire",
+        "what is executed is the MIR rustc produces for the functions named, with the callee models listed under stubs",
+    ],
+}
+
 # Duplicate detection / order of appearance in IDL::from_token (harness/parser/c11.rs, not mounted) was attempted
 # twice with Kani and is not part of the claim: see DESIGN.md section 3/C11.
 
